@@ -11,6 +11,7 @@ TEXT = ("must_getter_table, getter_error_iff, no_getter_no_methods, method_set, 
 TECHNIQUE = "Lean 4 theorems (case analysis over the getter options, decide over regenerated API tables) + exhaustive truth-table build, reflection of the method set and calls in the probe"
 LEAN_PROPS = ["C13"]
 TRUSTED = ["copier.Copy conversion to the declared type is the runtime's; observed per call"]
+DETERMINISTIC = True   # no random generation: further thorough rounds would repeat the same cases
 ASSUMPTIONS = []
 
 CONTAINER_API = ["AddDecorator", "CircularDeps", "Get", "GetInContext", "GetParam", "GetTaggedBy", "GetTaggedByInContext", "HotSwap", "IsTaggedBy", "OverrideParam", "OverrideService", "Root"]
